@@ -606,6 +606,20 @@ h("ka2_inflate_end_releases_once", I + "/ki8_entry.rs", "inflate::verif_kani::ki
 # each property's quick check stays within ~10 minutes of wall time on 16 cores while keeping every kernel that is
 # unique to the property.
 # =================================================================================================================
+# measured peak RSS (GB, rounded up) of the heavier harnesses' CBMC process, used by the scheduler's memory-aware admission
+# (lib/runner.py); harnesses without an entry are estimated at a third of their cap.  Values come from evidence/*.json.
+RSS_MEASURED = {"kb1_back_lit1_d16": 6, "kb1_back_lit1_d29": 9, "kb1_back_lit1_d4": 6, "kb1_back_lit9_d5": 11, "kd10_reset_equals_fresh": 9,
+                "kd4_build_tree_bl_single": 6, "kd6_stored_one_call": 19, "kd6_stored_resume": 16, "kd6_stored_tiny_pending": 16, "kd7_gzip_header_none_s1": 17,
+                "kd7_gzip_start_stale_gzindex": 10, "kd7_zlib_starved_finish": 16, "kd7_zlib_wrapper": 10, "kd8_quick_sync_n3": 10, "kd8_quick_finish_n5": 12,
+                "ki2_copy_match_twin_small": 10, "ki2_copy_match_twin_wide": 14, "ki2_extend_from_window_twin": 9, "ki5a_head_w3_n2": 12, "ki5a_head_w7_n2": 16,
+                "ki5c_typedo_b7_i0": 9, "ki7_inflate_copyblock": 14, "kd9_longest_match_any_chain_length": 11, "ki6_fast_loop_room": 12,
+                "ki5d_match_step_dispatch": 10, "ki5d_match_step_friends": 10, "kd4_build_tree_bl_k4": 8, "kc9_adler_len_4_5": 8}
+for _n, _v in RSS_MEASURED.items():
+    if _n in HARNESSES and "rss_gb" not in HARNESSES[_n]:
+        HARNESSES[_n]["rss_gb"] = _v
+    if _n in HARNESSES and HARNESSES[_n].get("mem_gb", 12) < _v + 4:
+        HARNESSES[_n]["mem_gb"] = _v + 6
+
 QUICK = {
     "C01": ["kd9_fill_window_slide_keeps_deferred_match", "kd9_slide_hash_chain", "kd4_gen_codes_n5", "kd4_build_tree_bl_k3", "kd5_send_tree_n4", "kd8_quick_finish_n1", "kd8_quick_finish_n3", "kd2_static_encode_matches_rfc", "ki5d_fixed_tables_are_rfc",
             "kd1_emitters_one_step", "ki5c_stored", "kd10_reset_equals_fresh"],
@@ -615,14 +629,14 @@ QUICK = {
     "C03": ["ki5c_codelens_16_exact", "ki5c_codelens_17_exact", "ki5c_codelens_18_exact", "ki5c_codelens_18_over", "ki5d_match_guard_dispatch", "ki5d_match_guard_friends", "ki5a_head_w1_n2", "ki5a_head_w3_n2", "ki5a_head_w2_n2", "ki5a_dictid_n4", "ki5c_typedo_b3_i0", "ki5c_typedo_b7_i0", "ki5c_stored", "ki5c_table",
             "ki5c_lenlens_order", "ki5d_len_step", "ki5d_dist_step_friends", "ki5d_fixed_tables_are_rfc", "ki5e_check_zlib",
             "ki5e_length_gzip", "ki5b_hcrc"],
-    "C04": ["ki1_bitreader_split", "ki5c_copyblock_resume", "ki5c_stored_trees", "ki5d_match_guard_dispatch", "ki5c_codelens_17_suspend", "ki5c_lenlens_order", "ki5b_extra", "ki5d_dist_step_friends",
+    "C04": ["ki5d_dist_long_code_dispatch", "ki1_bitreader_split", "ki5c_copyblock_resume", "ki5c_stored_trees", "ki5d_match_guard_dispatch", "ki5c_codelens_17_suspend", "ki5c_lenlens_order", "ki5b_extra", "ki5d_dist_step_friends",
             "ki7_inflate_copyblock", "ki3_window_extend_ring", "ki5c_typedo_b2_i0"],
     "C05": ["kd4_gen_codes_n5", "kd4_build_tree_bl_k2", "kd4_build_tree_bl_k3", "kd4_build_tree_bl_single", "kd5_send_tree_n4", "kd5_send_tree_z11_n13", "kd1_bitwriter_pack", "kd1_emitters_one_step", "kd1_bitwriter_full_register", "kd10_prime",
             "kd2_static_encode_matches_rfc", "kd2_static_ltree_is_rfc_fixed_code", "kd7_zlib_wrapper", "kd8_quick_finish_n1",
             "kd10_set_dictionary_protocol"],
     "C06": ["kd7_refused_call_without_space_is_harmless", "kd7_starved_flush_is_completed_by_the_next_call", "kd7_zlib_wrapper", "kd7_zlib_starved_finish", "kd10_prime", "kd10_params_tune", "kd10_set_header",
             "kd8_quick_finish_n1", "ka1_alloc_overflow_and_null"],
-    "C07": ["kd8_quick_finish_n1", "kd8_quick_finish_n3", "kd6_stored_one_call", "kd7_gzip_header_none_s1"],
+    "C07": ["kd8_quick_finish_n1", "kd8_quick_finish_n3", "kd7_gzip_header_none_s1"],  # kd6_stored_one_call (580 s, 18 GB): thorough tier
     "C08": ["ki3_window_extend_checksum_order", "ki5e_check_zlib", "ki5e_check_gzip", "ki5e_length_gzip", "ki5b_hcrc", "ki5b_fixed_part", "ki5b_name",
             "ki7_inflate_copyblock", "kc9_adler_len_0_1_2_3"],
     "C09": ["kc9_crc_tables", "kc9_crc_braid_table", "kc9_crc_naive_step", "kc9_crc_braid_short",
